@@ -474,3 +474,44 @@ func c02Scenarios(tier string) []*SeqScenario {
 	}
 	return scs
 }
+
+// ---- C03: crash scenarios ----
+
+func c03Scenarios(prop, tier string) []*CrashScenario {
+	alpha := putOps([]int{0, 1, 4}, []int{1, 2})
+	alpha = append(alpha, removeOps([]int{0, 1})...)
+	alpha = append(alpha, Op{Kind: OpFlush}, Op{Kind: OpIdxGC, B: true}, Op{Kind: OpPriGC, A: 0}, Op{Kind: OpPriGC, A: 50}, Op{Kind: OpReopen, A: 0})
+	depth := 3
+	cfgs := []Config{
+		cfg("mh", false, 8, 1, 1),
+		cfg("mh", false, 8, 48, 48),
+		cfg("cid", false, 8, 48, bigFile),
+	}
+	pres := gcPreambles()
+	if tier != "quick" {
+		depth = 4
+		cfgs = append(cfgs, cfg("mh", false, 8, bigFile, bigFile), cfg("mh", false, 12, 48, 1), cfg("mh", true, 8, 48, 48))
+		alpha = append(alpha, Op{Kind: OpIdxGC, B: false}, Op{Kind: OpReopen, A: 1})
+	}
+	var oracles []string
+	if prop == "C07" {
+		oracles = []string{"fsck"}
+	}
+	var scs []*CrashScenario
+	for _, c := range cfgs {
+		for pi, pre := range pres {
+			d := depth
+			if pi > 0 {
+				d = depth - 1
+			}
+			scs = append(scs, &CrashScenario{Prop: prop, Name: "c03", Cfg: c, Preamble: pre, Alphabet: alpha, Depth: d, Oracles: oracles})
+		}
+	}
+	return scs
+}
+
+func c11Scenarios(tier string) []*SeqScenario { return nil }
+
+func recoverC09(sc *CrashScenario, img vos.Image, info crashInfo, c *Collector) *Violation { return nil }
+
+func recoverC10(sc *CrashScenario, img vos.Image, info crashInfo, c *Collector) *Violation { return nil }
